@@ -735,7 +735,7 @@ func (s *Stage) cleanStrays(minAge time.Duration) {
 				// (a version that failed validation is not held anywhere: a
 				// partial of it is its retransmission, which the log decides)
 				delete = comp == nil || comp.Hash == fileHash
-				deleteCmp = compExists && fileState == stateLogged
+				deleteCmp = delete && compExists && fileState == stateLogged
 				s.logDebug("Stray partial cache info:", relPath, fileState, fileHash)
 			} else {
 				end := time.Now()
